@@ -225,6 +225,18 @@ def rule_guarded(ctx: Ctx) -> None:  # noqa: C901
     ctx.add("2-guarded", ld, listed[0] if listed else ld.node, not listed, "RunInfo.load reads exactly the files that run_info.json names" if not listed else
             f"`{norm(listed[0])[:50]}`: RunInfo.load takes the content of a directory for the recorded inputs: the leftover temporary file of a writer that was killed (`<name>.<pid>.tmp`) is loaded as an input - "
             "the resume gate raises 'Could not load previous run info' (truncated pickle) instead of resuming", key="load-reads-recorded-files")
+    # cleanup=True has to leave an EMPTY folder: shutil.rmtree refuses to operate on a symbolic link, and `ignore_errors=True` turns
+    # that refusal into "nothing happened" - every file of the earlier run stays, the new run takes them for its own results
+    for f_ in P.functions_in("pipefunc.map._run_info"):
+        for c in [c for c in walk_no_nested(f_.node) if isinstance(c, ast.Call) and dotted(c.func).rsplit(".", 1)[-1] == "rmtree" and c.args]:
+            silent = any(k.arg == "ignore_errors" and isinstance(k.value, ast.Constant) and k.value.value is True for k in c.keywords) or (len(c.args) > 1 and isinstance(c.args[1], ast.Constant) and c.args[1].value is True)
+            target = norm(c.args[0])
+            cfg_f = ctx.cfg(f_)
+            nd = cfg_f.node_containing(c)
+            handled = "resolve()" in norm(Defs(f_).resolve(c.args[0])) or "realpath" in norm(Defs(f_).resolve(c.args[0])) or any(isinstance(x, ast.Call) and isinstance(x.func, ast.Attribute) and x.func.attr in ("is_symlink", "islink") for x in ast.walk(f_.node))
+            ctx.tri("4-no-delete", f_, c, (not silent) or handled, silent and not handled, f"`{norm(c)[:50]}`: a symbolic link is handled (or a failure of rmtree is not swallowed)",
+                    f"`{norm(c)[:60]}` silently does nothing when `{target}` is a symbolic link (rmtree refuses links; ignore_errors=True swallows the refusal): with cleanup=True the folder keeps the files of the earlier run, "
+                    "and the new run - with different inputs - finds every element 'already stored' and returns the OLD values", key=f"rmtree-follows-link {f_.name}")
     fa = P.classes.get("pipefunc.map._storage_array._file.FileArray")
     if fa is not None:
         for mname in ("mask_linear", "has_index", "mask"):
